@@ -12,7 +12,7 @@ CONSTANTS
   Depth = 4
   RootP = {"new"}
   MixinP = {"props"}
-  DerivedP = {"props", "ppty"}
+  DerivedP = {"props", "ppty", "bare"}
   DerivedC = {}
   DerivedM = {}
   MaxOverrides = 1
